@@ -299,11 +299,20 @@ static void run_eq(const std::vector<std::vector<Tok>> &ch, Out &o)
     Out ox, oy;
     print_attrs(x, ox);
     print_attrs(y, oy);
-    return ox.line == oy.line && x.GetHash() == y.GetHash();
+    return ox.line == oy.line;
   };
-  bool paths = same(proc->process(ia), ma) && same(proc->process(ib), mb);
-  if (f.none) paths = paths && same(sdkm::MetricAttributes(ia, nullptr), ma) && same(sdkm::MetricAttributes(ib), mb);
+  auto via_a = proc->process(ia);
+  auto via_b = proc->process(ib);
+  bool paths = same(via_a, ma) && same(via_b, mb);
+  bool phash = via_a.GetHash() == ma.GetHash() && via_b.GetHash() == mb.GetHash();
+  if (f.none)
+  {
+    sdkm::MetricAttributes na(ia, nullptr), nb(ib);
+    paths = paths && same(na, ma) && same(nb, mb);
+    phash = phash && na.GetHash() == ma.GetHash() && nb.GetHash() == mb.GetHash();
+  }
   o.boolean(paths);
+  o.boolean(phash);
 }
 
 // ------------------------------------------------------------------ HM
